@@ -159,13 +159,13 @@ func filter(kv []hx.KV, s span) []hx.KV {
 func driveIter(it *pebble.Iterator) ([]hx.KV, error) {
 	var fwd, bwd []hx.KV
 	for v := it.First(); v; v = it.Next() {
-		fwd = append(fwd, hx.KV{K: string(it.Key()), V: string(it.Value())})
+		fwd = append(fwd, hx.KV{K: string(it.Key()), V: hx.Val(it.Value())})
 	}
 	if err := it.Error(); err != nil {
 		return nil, err
 	}
 	for v := it.Last(); v; v = it.Prev() {
-		bwd = append(bwd, hx.KV{K: string(it.Key()), V: string(it.Value())})
+		bwd = append(bwd, hx.KV{K: string(it.Key()), V: hx.Val(it.Value())})
 	}
 	if err := it.Error(); err != nil {
 		return nil, err
@@ -186,7 +186,7 @@ func driveIter(it *pebble.Iterator) ([]hx.KV, error) {
 		ok := it.SeekGE([]byte(k))
 		v, present := have[k]
 		if present {
-			if !ok || string(it.Key()) != k || string(it.Value()) != v {
+			if !ok || string(it.Key()) != k || hx.Val(it.Value()) != v {
 				return fwd, fmt.Errorf("SeekGE(%s) did not land on %s=%s", k, k, v)
 			}
 		} else if ok && string(it.Key()) == k {
@@ -374,7 +374,7 @@ func (r *run) compareLazy() string {
 		if err != nil {
 			return "LazyValue: " + err.Error()
 		}
-		if i >= len(want) || want[i].K != string(it.Key()) || want[i].V != string(val) {
+		if i >= len(want) || want[i].K != string(it.Key()) || want[i].V != hx.Val(val) {
 			return fmt.Sprintf("LazyValue of %s = %q, want %v", it.Key(), val, want)
 		}
 		if !bytes.Equal(val, it.Value()) {
@@ -423,6 +423,11 @@ func histRun(c *vlib.Ctx, cfg hx.Config, mon monitors, pre, hist []hx.Op, verbos
 	r.fs = newTrackFS(mem, r)
 	o := cfg.Options(r.fs)
 	o.EventListener = &pebble.EventListener{
+		BlobFileRewriteEnd: func(info pebble.BlobFileRewriteInfo) {
+			r.kmu.Lock()
+			r.kinds["blob-file-rewrite/blob-file-rewrite"]++
+			r.kmu.Unlock()
+		},
 		CompactionEnd: func(info pebble.CompactionInfo) {
 			r.kmu.Lock()
 			r.kinds[info.Reason+"/"+kindOf(info)]++
@@ -430,8 +435,22 @@ func histRun(c *vlib.Ctx, cfg hx.Config, mon monitors, pre, hist []hx.Op, verbos
 		},
 	}
 	var leak *leakState
+	var sharedCache *pebble.Cache
+	var sharedFC *pebble.FileCache
+	if cfg.SharedCaches {
+		// caches owned by the harness and shared with the DB: Close must give back exactly the
+		// references it took and leave no file of the DB open in the shared file cache
+		sharedCache = pebble.NewCache(1 << 20)
+		sharedFC = pebble.NewFileCache(1, 64)
+		o.Cache = sharedCache
+		o.FileCache = sharedFC
+		defer func() {
+			sharedFC.Unref()
+			sharedCache.Unref()
+		}()
+	}
 	if mon.closeLeak {
-		leak = beginLeakCheck()
+		leak = beginLeakCheck() // after the harness-owned caches (their goroutines are not the DB's)
 	}
 	x, err := hx.OpenWith("db", o)
 	if err != nil {
@@ -485,6 +504,11 @@ func histRun(c *vlib.Ctx, cfg hx.Config, mon monitors, pre, hist []hx.Op, verbos
 	r.noteKinds()
 	if err := x.D.Close(); err != nil {
 		return &failure{"close-error", err.Error(), len(all)}, skippedAt, shapeHashes
+	}
+	if mon.closeLeak && sharedCache != nil {
+		if n := sharedCache.VerifRefs(); n != 1 {
+			return &failure{"cache-reference-leak", fmt.Sprintf("after Close the shared block cache has %d references, the harness holds 1", n), len(all)}, skippedAt, shapeHashes
+		}
 	}
 	if mon.closeLeak && skippedAt < 0 {
 		if cls, d := leak.check(r); d != "" {
